@@ -439,6 +439,35 @@ def plumbing_probe(run, tier, rng):
         mc.BaseMCMCRunner.run = orig_run
 
 
+def reused_container_probe(run, rng):
+    """the designation is whatever the lists contain WHEN the routine is called: the same list / array object edited in place between two
+    calls must give what a fresh container with the same content gives (no memory of earlier calls)"""
+    import tempest.mcmc as mc
+    for t in range(40):
+        d = rng.choice([2, 3, 4])
+        per_obj = [rng.choice([list, np.array][:2])(sorted(rng.sample(range(d), rng.randint(0, d - 1)))) for _ in range(1)][0]
+        ref_obj = [i for i in range(d) if i not in set(int(v) for v in per_obj)][:rng.randint(0, 1)]
+        u = np.array([rng.choice([0.5, 1.5, -0.25, 0.25, 2.75]) for _ in range(d)])
+        first = (mc.check_bounds(u, per_obj, ref_obj), mc.apply_boundary_conditions(u, per_obj if len(per_obj) else None, ref_obj or None).tolist())
+        # edit the SAME objects in place
+        free = [i for i in range(d) if i not in set(int(v) for v in per_obj) and i not in ref_obj]
+        if isinstance(per_obj, list):
+            if per_obj and rng.random() < 0.5:
+                per_obj.pop()
+            elif free:
+                per_obj.append(free[0])
+        elif len(per_obj) and free:
+            per_obj[0] = free[0]
+        got = (mc.check_bounds(u, per_obj, ref_obj), mc.apply_boundary_conditions(u, per_obj if len(per_obj) else None, ref_obj or None).tolist())
+        fresh_p = [int(v) for v in per_obj]
+        want = (mc.check_bounds(u.copy(), list(fresh_p), list(ref_obj)), mc.apply_boundary_conditions(u.copy(), list(fresh_p) or None, list(ref_obj) or None).tolist())
+        run.case(key=("reused-container", t), nontrivial=True)
+        if got != want:
+            run.fail("designation-remembered-from-an-earlier-call", f"u={u.tolist()}, periodic (same object, edited in place) = {fresh_p}, reflective = {ref_obj}: "
+                     f"(check_bounds, apply_boundary_conditions) = {got}, with fresh containers {want}", u=u.tolist(), periodic=fresh_p, reflective=ref_obj)
+            return
+
+
 def search(run):
     rng = random.Random(99)
     correspond_scalar(run, "quick", rng)
@@ -470,6 +499,7 @@ def main(tier, seed):
         correspond_vectors(run, tier, rng)
         batch_probe(run, tier, rng)
         plumbing_probe(run, tier, rng)
+        reused_container_probe(run, rng)
     except Exception:
         import traceback
         run.broken.append(("harness-exception", traceback.format_exc()[-1500:]))
